@@ -236,6 +236,7 @@ func runC16(c *Ctx) {
 	ruleNoAdopt(c, p, "C16.alias")
 	ruleAppendTail(c, p, "C16.tail")
 	ruleAdopt(c, p, "C16.adopt")
+	ruleInferMaps(c, p, "C16.exact")
 	c.R.Assumptions = append(c.R.Assumptions,
 		"decided: Reset clears every content field that Append*/DecodeColumn/Prepare write; block decoding resets each accepted target on every path; Prepare renumbers the dictionary from a cleared map and index and rebuilds key columns from length 0; not decided: result equality after arbitrary histories")
 }
@@ -837,6 +838,8 @@ func runC18(c *Ctx) {
 	ruleEndMarker(c, p, "C18.endmarker")
 	ruleCountCases(c, p, "C18.count")
 	ruleInferErrors(c, p, "C18.infer-errors")
+	ruleAutoAdopts(c, p, "C18.auto-adopt")
+	ruleInferMaps(c, p, "C18.exact")
 	ruleAdopt(c, p, "C18.adopt")
 	ruleInferTables(c, p, "C18")
 	c.R.Assumptions = append(c.R.Assumptions,
@@ -1443,4 +1446,103 @@ func ruleInferErrors(c *Ctx, p *core.Program, rule string) {
 	n := runErrDisc(c, p, fns, errDiscOpts{Rule: rule, Class: cls, Again: func(*ssa.Function, ssa.CallInstruction) bool { return false }})
 	c.R.Count("error-returning calls in Infer methods", n)
 	c.R.Floor(rule, cfg, n, 8)
+}
+
+// ruleInferMaps (C18.exact / C16.exact): a mapping rebuilt by Infer does not keep entries of the previous type.
+func ruleInferMaps(c *Ctx, p *core.Program, rule string) {
+	c.R.Rule(rule, "an Infer method (or the parse helper it calls) that fills a map field of the column from the server's type string starts from an empty map: on every path from the entry of Infer to the first insertion the map is cleared (clear(m), a delete-all loop, or an unconditional fresh make) - otherwise a reused target keeps the names and codes of the previous enum definition next to the new ones (stale names still encode, stale codes still decode)")
+	cfg := p.Cfg.Name
+	n := 0
+	for _, fn := range p.Funcs() {
+		if pkgOf(fn) == nil || pkgOf(fn).Path() != core.PkgProto || fn.Name() != "Infer" || fn.Blocks == nil || core.RecvNamed2(fn) == nil {
+			continue
+		}
+		named := core.RecvNamed2(fn)
+		// map insertions in Infer itself or in a method of the same type it calls
+		type ins struct {
+			site  ssa.Instruction // in fn
+			field string
+			host  *ssa.Function
+		}
+		var list []ins
+		for _, g := range append([]*ssa.Function{fn}, core.StaticReachList(fn)...) {
+			if g == nil || g.Blocks == nil || g != fn && (core.RecvNamed2(g) == nil || core.RecvNamed2(g).Obj() != named.Obj()) {
+				continue
+			}
+			for _, b := range g.Blocks {
+				for _, in := range b.Instrs {
+					mu, ok := in.(*ssa.MapUpdate)
+					if !ok {
+						continue
+					}
+					f := recvFieldOfValue(mu.Map, named)
+					if f == "" {
+						continue
+					}
+					list = append(list, ins{site: in, field: f, host: g})
+				}
+			}
+		}
+		seenField := map[string]bool{}
+		for _, it := range list {
+			if seenField[it.field] {
+				continue
+			}
+			seenField[it.field] = true
+			n++
+			key := named.Obj().Name() + "." + it.field
+			g := it.host
+			cleared := func(in ssa.Instruction) bool {
+				switch x := in.(type) {
+				case *ssa.Store:
+					if recvFieldOf(x.Addr, named) == it.field {
+						_, isMake := x.Val.(*ssa.MakeMap)
+						return isMake
+					}
+				case ssa.CallInstruction:
+					if bi, ok := x.Common().Value.(*ssa.Builtin); ok && (bi.Name() == "clear" || bi.Name() == "delete") {
+						return recvFieldOfValue(x.Common().Args[0], named) == it.field
+					}
+				}
+				return false
+			}
+			// a make guarded by `m == nil` does not clear an existing map: remove those edges' protection by
+			// requiring the clearing instruction on the path where the map is non-nil
+			nonNil := core.CondEdges(g, false, func(cond ssa.Value) (bool, bool) {
+				x, isNonNil, ok := nilCmp(cond)
+				if !ok || recvFieldOfValue(x, named) != it.field {
+					return false, false
+				}
+				return !isNonNil, true
+			})
+			_ = nonNil
+			hits := core.ReachAvoiding(core.Entry(g), func(x ssa.Instruction) bool { return x == it.site }, func(x ssa.Instruction) bool {
+				if !cleared(x) {
+					return false
+				}
+				// a clearing store that only runs when the map is nil does not count
+				if st, ok := x.(*ssa.Store); ok {
+					if _, isMake := st.Val.(*ssa.MakeMap); isMake {
+						nilOnly := core.CondEdges(g, true, func(cond ssa.Value) (bool, bool) {
+							v, isNonNil, ok := nilCmp(cond)
+							if !ok || recvFieldOfValue(v, named) != it.field {
+								return false, false
+							}
+							return !isNonNil, true
+						})
+						if len(nilOnly) > 0 && core.OnlyViaEdges(g, st, nilOnly) {
+							return false
+						}
+					}
+				}
+				return true
+			}, nil)
+			if len(hits) > 0 {
+				c.R.Bad(rule, key, cfg, p.Pos(it.site.Pos()), "the mapping "+it.field+" is filled without being emptied first: entries of a previously inferred type survive in a reused column")
+			} else {
+				c.R.Ok(rule, key, cfg, p.Pos(it.site.Pos()), "map emptied before it is refilled")
+			}
+		}
+	}
+	c.R.Count("map fields filled by Infer methods", n)
 }
